@@ -1086,7 +1086,11 @@ class Repository:
             )
 
     def _flatten_resolve_paths(self, paths):
-        return list(flatten_paths(path.resolve(strict=True) for path in paths))
+        # The same file can be reached more than once (repeated or overlapping
+        # arguments, symlinks); it must be recorded just once
+        return list(
+            dict.fromkeys(flatten_paths(path.resolve(strict=True) for path in paths))
+        )
 
     async def snapshot(self, *, paths, note=None, rate_limit=None):
         self.display_status('Collecting files')
